@@ -149,6 +149,22 @@ fn main() {
             }
             0
         }
+        Some("c09rej") => {
+            use proptest::test_runner::{Config, RngSeed, TestRunner};
+            let mut runner = TestRunner::new(Config { rng_seed: RngSeed::Fixed(seed), failure_persistence: None, ..Config::default() });
+            let mut shown: std::collections::BTreeMap<String, usize> = Default::default();
+            for _ in 0..400 {
+                let case = { let mut g = pbt::G::new(runner.rng()); checks::c09::gen_case(&mut g, &gen::Excl::default()) };
+                let src = checks::c09::source(&case);
+                if let cc::Outcome::Err(e) = cc::compile_str(&src, &cc::Opts::o(1)) {
+                    let k = e.msg().chars().take(40).collect::<String>();
+                    let n = shown.entry(k.clone()).or_insert(0);
+                    *n += 1;
+                    if *n <= 3 { let line = e.loc().map(|l| l.1 as usize).unwrap_or(0); writeln!(out, "--- {} (line {})\n{}", k, line, src.lines().nth(line.saturating_sub(1)).unwrap_or("")).ok(); }
+                }
+            }
+            0
+        }
         Some("refc") => refc_debug(&mut out, &pos.get(0).cloned().unwrap_or_default()),
         Some("replay") => {
             let path = pos.get(0).cloned().unwrap_or_default();
